@@ -199,6 +199,11 @@ type DownloadCall struct {
 	CacheErr string
 	// RemovalsAtStart is the number of removal events for the blob applied before the call started.
 	RemovalsAtStart int
+	// EventID is the id of the call's new-torrent event once it is pending in the loop (0: the
+	// call returned without sending one). RemovalsAtApply is the number of removal events for
+	// the blob that had been applied when that event was applied (-1: not applied yet).
+	EventID         int
+	RemovalsAtApply int
 }
 
 // Returned reports whether Download has returned (and its post-check finished).
@@ -371,9 +376,12 @@ func (h *H) SeedCache(i int) error {
 // StartDownload starts Scheduler.Download(blob i) on its own goroutine and waits
 // until it is either pending in the loop or has returned.
 func (h *H) StartDownload(i int) *DownloadCall {
-	c := &DownloadCall{Blob: i, RemovalsAtStart: h.Removals[i]}
+	c := &DownloadCall{Blob: i, RemovalsAtStart: h.Removals[i], RemovalsAtApply: -1}
+	seen := map[int]bool{}
+	for _, e := range h.VH.Pending() {
+		seen[e.ID] = true
+	}
 	h.Calls = append(h.Calls, c)
-	before := len(h.VH.Pending())
 	go func() {
 		err := h.Sched.Download("ns", h.Blobs[i].Digest)
 		ok, cerr := false, ""
@@ -395,10 +403,19 @@ func (h *H) StartDownload(i int) *DownloadCall {
 	// when it has (or has returned): otherwise a later step would race with that disk access,
 	// an interleaving outside the serialized events these harnesses own. A machine too busy to
 	// get there marks the run inconclusive.
-	if !WaitFor(60*time.Second, func() bool { return c.Returned() || len(h.VH.Pending()) > before }) {
+	ownEvent := func() int {
+		for _, e := range h.VH.Pending() {
+			if !seen[e.ID] && e.Kind == "newTorrentEvent" && e.InfoHash == h.Blobs[i].MetaInfo.InfoHash() {
+				return e.ID
+			}
+		}
+		return 0
+	}
+	if !WaitFor(60*time.Second, func() bool { return c.Returned() || ownEvent() != 0 || h.VH.Stopped() }) {
 		h.Inconclusive = true
 		atomic.StoreInt32(&inconclusive, 1)
 	}
+	c.EventID = ownEvent()
 	return c
 }
 
@@ -520,6 +537,13 @@ func (h *H) Settle() {
 // NoteRemoval counts a removal event that is about to be applied (used to skip a
 // cache check that a concurrent manual removal makes unjudgeable).
 func (h *H) NoteRemoval(e scheduler.VerifPending) {
+	if e.Kind == "newTorrentEvent" {
+		for _, c := range h.Calls {
+			if c.EventID == e.ID {
+				c.RemovalsAtApply = h.Removals[c.Blob]
+			}
+		}
+	}
 	if e.Kind != "removeTorrentEvent" {
 		return
 	}
